@@ -521,7 +521,7 @@ def _apply_event(self, sh: Shadow, name, a, k, pre, res):
         m1 = _arg(a, k, 0, "mode_1")
         m2 = _arg(a, k, 1, "mode_2")
         if m2 is None:
-            m2 = m1 + 1
+            m2 = int(m1) + 1      # "the next mode", as a number: fixed-width numpy integers would wrap at their limit
         r = _arg(a, k, 2, "reflectivity", 0.5)
         loss = _arg(a, k, 3, "loss", 0)
         conv = _arg(a, k, 4, "convention", "Rx")
